@@ -433,6 +433,8 @@ def _static_case(draw):
   if shape['kind'] in ('callobj', 'boundmethod') and shape['api'] == 'configurable':
     shape['api'] = 'external'
   shape['method_api'] = 'register'
+  if shape['kind'] == 'boundmethod' and draw(st.booleans()):
+    shape['plain_function_first'] = True
   if shape['kind'] == 'method':
     shape['method_contains_class'] = draw(st.booleans())
     shape['nested_host'] = draw(st.sampled_from([None, None, 'class', 'function']))
